@@ -40,7 +40,9 @@ REG = {
          'posterior of the best hypothesis); LM scale 0 reproduces LM-free decoding exactly. Correspondence with the real decoder '
          'driven by history-hash toy LMs (half of the decoder objects have already decoded other lines from other start states), '
          'final hypotheses and PER-FRAME beams (prefix -> Pb, Pnb, LM score); '
-         'oracle recomputes LM scores along transcripts.',
+         'oracle recomputes LM scores along transcripts; a second oracle drives the decoder with the REAL LMWrapper/HiddenState around '
+         'tiny seeded torch LMs (plain and tuple state), reference = the raw torch modules along every transcript from a pristine copy of '
+         'the start state; decoder object AND start-state object reused over several lines (the start state must not be modified).',
     note='Trusted: as C02; rank decisions with margin < 1e-6 skipped; real torch LM (LMWrapper) not modelled: any object with the '
          'advance/log_probs/eos interface is covered by the theorems.',
     technique='Lean 4 proof (invariant: plm/h depend on the prefix only; arg-max/posterior laws) + differential correspondence',
@@ -49,7 +51,9 @@ REG = {
     text='Lean 4 theorems: the engine\'s batched index pipeline (prepend blank frame, +1, repeat mask, zeroing, -1, filter), the '
          'stand-alone groupby decoder and greedy_filtration all equal the CTC collapse of the first-arg-max path, for every '
          'number of classes, frames and lines; batched decoding is line-wise. Tied to the real torch/numpy code by exact '
-         'correspondence (exhaustive arg-max patterns + random integer tensors with ties).',
+         'correspondence (exhaustive arg-max patterns + random integer tensors with ties); the whole engine (process_lines -> run_ocr -> '
+         'greedy_decode_ctc) behind stub networks that answer padding with blank, one character or two characters in turn: returned text = '
+         'collapse(arg-max of the RETURNED logits) = stand-alone decoder on them, for every line of every batch.',
     note='Trusted: Lean kernel + 3 standard axioms; torch.argmax/np.argmax return the first maximum (exercised); the batched '
          'torch ops act independently per line (modelled as List.map; exercised with batches of different content).',
     technique='Lean 4 proof (pipeline = collapse, induction over frames) + differential correspondence',
@@ -150,9 +154,16 @@ REG['C11'] = dict(
          'For RECTANGULAR regions the clipping itself is a theorem: Clip.clipPolyline (Liang-Barsky on exact rationals) is sound and '
          'complete per segment (a parameter is kept iff its point lies in the rectangle), every placed vertex lies in the region and on '
          'the detected baseline, a baseline wholly inside is returned unchanged as one piece, one that does not touch yields nothing; '
-         'exact correspondence of shapely\'s intersection and of the real mask_textline_by_region (longest piece) with that model.',
-    note='Trusted: shapely; float32 casts of coordinates < 2^24; merge loop termination (assumed).',
-    technique='Lean 4 proof (string injectivity, fold invariants) with shapely as a parameter + geometry oracle (partial)',
+         'exact correspondence of shapely\'s intersection and of the real mask_textline_by_region (longest piece) with that model. '
+         'The MERGE LOOP of LayoutExtractor.process_page (merge_lines + re-assignment until the number of lines stops changing) is modelled '
+         '(Model/MergeLoop): the grouping pass of merge_lines partitions the removed lines into the new ones (merge_groups_partition), never '
+         'returns more lines than it got (merge_count_le), keeps isolated lines, re-assignment to one region places each line at most once '
+         '(assign_count_le), hence the loop TERMINATES within n + 1 passes for every such step (merge_loop_terminates, fuel never exhausted) '
+         'and stops exactly when a pass leaves the count unchanged (merge_loop_exit); exact correspondence with the real merge_lines and the '
+         'real loop (returned extents / heights, number of passes) on horizontal integer baselines, where the pairwise test is exact. '
+         'A third genuine defect found by this correspondence is fixed (clipping returned the baseline REVERSED).',
+    note='Trusted: shapely; float32 casts of coordinates < 2^24; the de-skew rotation inside merge_lines (angle 0 on the generated lines).',
+    technique='Lean 4 proof (string injectivity, fold invariants, termination of the merge loop by a decreasing count) with shapely as a parameter + geometry oracle (partial)',
     ref='§5-C11')
 REG['C07'] = dict(
     text='Lean 4 theorems over a model of process_lines batching: the processing order is a permutation (stable, descending '
@@ -161,7 +172,8 @@ REG['C07'] = dict(
          'width unless cropped to the engine maximum; frame window = image of the un-padded columns; sparse storage keeps exactly '
          'the logits with posterior >= threshold. Correspondence: exact batch composition/padded widths/windows against the real '
          'process_lines with a recording run_ocr; oracle on the real PytorchEngineLineOCR with a TorchScript stub: each line\'s '
-         'transcription/window/logits equal those of the line processed alone, for any order, batch mates and batch size.',
+         'transcription/window/logits equal those of the line processed alone, for any order, batch mates and batch size; the glue '
+         'PageOCR.process_page puts result i onto line i of the page (regions, empty regions, zero-width crops).',
     note='Trusted: the network is local (the property\'s own assumption; true for the stub); float conv results compared with atol '
          '1e-4; translator reads pad=32, 480*batch_size, 1e-4, sub=4. Over-long lines: truncation depends on the budget 480*batch_size.',
     technique='Lean 4 proof (permutation + chunking + scatter = identity) + differential correspondence + stub-network oracle',
@@ -254,7 +266,8 @@ REG['C19'] = dict(
          'the maximum; otherwise engine 0 is kept; ids and geometry always those of the first layout; self-merge changes nothing; '
          'CHAINED merging (a merged layout merged again with further engines, or with itself) equals merging all engines at once. '
          'Correspondence on the real merge_layouts with in-memory layouts (different charsets, empty transcriptions, the 0.5 '
-         'fallback, lines arriving with a stored confidence), confidences sent as exact dyadics.',
+         'fallback, lines arriving with a stored confidence), confidences sent as exact dyadics; the confidences themselves are checked '
+         'against an independent reference of get_line_confidence (aligned label minus best competitor, label and text neighbours excused).',
     note='Trusted: Lean kernel + standard axioms; the per-engine mean character confidence is an input of the model (computed by '
          'the real get_confidences; its range is C16).',
     technique='Lean 4 proof (fold invariant: first strict maximum) + differential correspondence',
@@ -278,7 +291,10 @@ REG['C20'] = dict(
          'every Decoder.infer call give '
          'the real write sets and re-allocations (compared with the model), and every slot the model calls invalid is poisoned with '
          'NaN before each step - the outputs stay NaN-free and bit-identical; postprocess_decoded against the model and an independent '
-         'oracle (symbols, prefix, batch independence). NOT decided by proof: that the float32 kernels evaluate the same term to the same '
+         'oracle (symbols, prefix, batch independence); the REAL transcribe_batch around a SCRIPTED network (line b emits script[b][step]) '
+         'corresponds exactly to the Lean transcribeLoop + postprocess (transcriptions, number of network evaluations), with an '
+         'independent per-line oracle and a greedy reference through the masked forward pass for random-weight models. '
+         'NOT decided by proof: that the float32 kernels evaluate the same term to the same '
          'number on every route, and lane-wise action of the batched kernels (per-line independence): checked differentially, 1e-4.',
     note='Trusted: PyTorch kernels act lane-wise and are deterministic functions of their inputs; random-weight small models stand in for '
          'trained ones; the VGG front-end is replaced by a conv stub (it downloads weights); the term evaluator (harness) interprets the '
